@@ -113,7 +113,8 @@ func (n *xnode) isText() bool { return n.Name == "" && n.Kind == "" }
 var elemNames = []string{"a", "b", "c", "item", "A-b", "Ab", "x_y", "ns:a", "ns:b", "data"}
 var attrNames = []string{"id", "x", "A-t", "ns:k", "seq", "Name"}
 var textPool = []string{"x", "hello world", " u ", "1", "2.5", "true", "T", "NaN", "-inf", "1e3",
-	"<&>\"'", "a&amp;b", "&#x41;", "é€", "l1\nl2", "\ttab", "]]>", "<![CDATA[", "0x1F", "007", "-0", "9223372036854775808", "false", "Infinity"}
+	"<&>\"'", "a&amp;b", "&#x41;", "é€", "l1\nl2", "\ttab", "]]>", "<![CDATA[", "0x1F", "007", "-0", "9223372036854775808", "false", "Infinity",
+	"-9223372036854775808", "18446744073709551615", "-1234567890123456789", "00000000000000000042", "9223372036854775807", "18446744073709551616", ""}
 
 type docCfg struct {
 	maxDepth  int
